@@ -196,6 +196,30 @@ func c11Negatives() []*RejectCase {
 		b.P.Note = "bind-negative:" + v
 		out = append(out, &RejectCase{P: b.P, Class: "bad-bind", Cell: "negative:" + v})
 	}
+	// the "concrete" side is itself an interface type that lacks one of I's methods
+	for _, v := range []string{"iface-missing-method", "iface-disjoint-methods", "empty-iface-for-nonempty"} {
+		b := NewPB("bn_"+v, "app")
+		impl := b.Carrier(0, "Impl")
+		wide := b.Iface(0, "ReadCloser", impl, false) // method M1 on Impl
+		m1 := wide.Decl.Under.Meths[0]
+		impl.Decl.Methods = append(impl.Decl.Methods, Method{Name: "Close"}, Method{Name: "Other"})
+		wide.Decl.Under.Meths = append(wide.Decl.Under.Meths, "Close")
+		var narrow *Ty
+		switch v {
+		case "iface-missing-method":
+			narrow = Named(b.P.NewDecl(0, "Closer", &Ty{K: "iface", Meths: []string{"Close"}, Params: []*Ty{impl}}, "iface"))
+		case "iface-disjoint-methods":
+			narrow = Named(b.P.NewDecl(0, "Otherer", &Ty{K: "iface", Meths: []string{"Other"}, Params: []*Ty{impl}}, "iface"))
+		case "empty-iface-for-nonempty":
+			narrow = Named(b.P.NewDecl(0, "Anything", &Ty{K: "iface", Params: []*Ty{impl}}, "iface"))
+		}
+		_ = m1
+		f := b.Func(0, "NewNarrow", narrow, false, false)
+		f.Stub = true
+		b.Inj("Init", wide, false, false, nil, ItemRef(f.ID), ItemRef(b.Bind(wide, narrow).ID))
+		b.P.Note = "bind-negative:" + v
+		out = append(out, &RejectCase{P: b.P, Class: "bad-bind", Cell: "negative:" + v})
+	}
 	// binding whose set does not provide the concrete type
 	for _, v := range []string{"concrete-absent", "concrete-in-sibling-set", "concrete-only-as-pointer"} {
 		v := v
